@@ -659,3 +659,139 @@ func (h hdrLive) parse(b []byte) reqInfo {
 func exchangeHdr(c *lib.Ctx, sl *scionLive, cfg exchCfg, sc script, out *parsed) exchResult {
 	return exchange(c, hdrLive{sl, out}, cfg, sc)
 }
+
+// ---------------------------------------------------------------- cookie pool and the origin `continue`
+
+// genPoolOrigin: one live NTS exchange per op (runExch of gen_pool.go: real client, scripted clock reading and
+// crypto/rand, the fetcher's pool preloaded) in which the peer sends datagrams that AUTHENTICATE under the
+// server-to-client key and the request's unique identifier but do not all echo the request's transmit
+// timestamp: nts.ProcessResponse has stored their cookies before the origin check refuses them, and while a
+// retry is left the loop goes on to the next datagram — a second StoreCookie round in ONE exchange
+// (Model/ClientTail.lean poolLoop; op cli.pool over ghost tags: pool entry i = i+1, cookies of datagram j = 100(j+1)+k).
+// Direct oracles on the pool the hook shows afterwards: `C11:pool-exceeds-eight` (the pool holds more than eight
+// cookies although every authenticated datagram echoed the request — a conformant server), `C11:pool-shrunk`
+// (a completed exchange left fewer cookies than before), `C11:unauthenticated-cookie-stored`.
+func genPoolOrigin(c *lib.Ctx, tag string, scionTr bool) {
+	if sandbox != "" {
+		return
+	}
+	r := c.Rand.Fork(tag)
+	tr := "ip"
+	if scionTr {
+		tr = "scion"
+	}
+	c.Comment("pool under authenticated datagrams with a stale origin: " + tag)
+	type shape struct {
+		name string
+		seq  []int // 0: authenticated, stale origin; 1: authenticated, echoes the request; 2: junk (does not authenticate)
+	}
+	shapes := []shape{{"stale,genuine", []int{0, 1}}, {"genuine", []int{1}}, {"stale", []int{0}}, {"stale,stale", []int{0, 0}},
+		{"junk,stale,genuine", []int{2, 0, 1}}, {"junk,genuine", []int{2, 1}}, {"genuine,stale", []int{1, 0}}, {"stale,junk,genuine", []int{0, 2, 1}}}
+	const cookieLen = 100
+	for rep := 0; rep < c.Scale(1, 4); rep++ {
+		for level := 1; level <= 8; level++ {
+			for _, sh := range shapes {
+				c2s, s2c := r.Bytes(32), r.Bytes(32)
+				var pool [][]byte
+				tagOf := map[string]int{}
+				for i := 0; i < level; i++ {
+					ck := r.Bytes(cookieLen)
+					pool = append(pool, ck)
+					tagOf[string(ck)] = i + 1
+				}
+				now := wallNow().UnixNano()
+				rnd := r.Bytes(48)
+				uid := rnd[:32]
+				nph := 8 - level
+				if f := fitFields(32, cookieLen); nph > f-1 {
+					nph = f - 1
+				}
+				var d [][]byte
+				var ds []string
+				conformant, willAccept := true, false
+				rounds := 0
+				for j, k := range sh.seq {
+					var fresh [][]byte
+					var tags []string
+					for x := 0; x < 1+nph; x++ {
+						ck := r.Bytes(cookieLen)
+						fresh = append(fresh, ck)
+						tagOf[string(ck)] = 100*(j+1) + x
+						tags = append(tags, fmt.Sprint(100*(j+1)+x))
+					}
+					hdr := serverHdr(now, pickTheta(r))
+					switch k {
+					case 0:
+						put64(hdr[24:], enc64(now-nsps-int64(r.Intn(1000)))) // an origin the request did not carry
+						d = append(d, genuineReply(hdr, uid, s2c, r.Bytes(16), fresh, nil))
+						ds = append(ds, "true:false:["+strings.Join(tags, ",")+"]")
+						conformant = false
+					case 1:
+						d = append(d, genuineReply(hdr, uid, s2c, r.Bytes(16), fresh, nil))
+						ds = append(ds, "true:true:["+strings.Join(tags, ",")+"]")
+					default:
+						d = append(d, genuineReply(hdr, uid, r.Bytes(32), r.Bytes(16), fresh, nil)) // sealed under another key
+						ds = append(ds, "false:true:["+strings.Join(tags, ",")+"]")
+					}
+					_ = rounds
+				}
+				// the loop looks at two datagrams at most; it ends at the first that authenticates and echoes
+				for j, k := range sh.seq {
+					if j > 1 {
+						break
+					}
+					if k == 1 {
+						willAccept = true
+						break
+					}
+				}
+				dl := 40
+				if willAccept {
+					dl = 4000
+				}
+				op := exchOp{tr: tr, pool: pool, c2s: c2s, s2c: s2c, hdr: clientHdr(now), now: now, dl: dl, rnd: rnd, d: d}
+				res := runExch(op)
+				if !res.ran || res.accept != willAccept && time.Duration(dl)*time.Millisecond < res.elapsed+5*time.Millisecond {
+					c.Count(tag + ":discarded")
+					continue
+				}
+				var after []string
+				unknown := false
+				for _, ck := range res.pool {
+					t, ok := tagOf[string(ck)]
+					if !ok {
+						unknown = true
+					}
+					after = append(after, fmt.Sprint(t))
+				}
+				var before []string
+				for i := range pool {
+					before = append(before, fmt.Sprint(i+1))
+				}
+				line := fmt.Sprintf("cli.pool retry=true pool=[%s] ds=%s", strings.Join(before, ","), strings.Join(ds, ";"))
+				ans := fmt.Sprintf("ok pool=[%s] past=%s", strings.Join(after, ","), lib.Bool(res.accept))
+				if unknown {
+					c.Fail("C11:unauthenticated-cookie-stored", "the pool holds a cookie the peer never issued", []string{line}, nil)
+				}
+				for _, ck := range res.pool {
+					if t := tagOf[string(ck)]; t >= 100 && sh.seq[t/100-1] == 2 {
+						c.Fail("C11:unauthenticated-cookie-stored", "the pool holds a cookie of a datagram that does not authenticate", []string{line}, map[string]any{"tag": t})
+					}
+				}
+				if len(res.pool) > 8 {
+					if conformant {
+						c.Fail("C11:pool-exceeds-eight", "the pool holds more than eight cookies after an exchange in which every authenticated datagram echoed the request",
+							[]string{line}, map[string]any{"pool": len(res.pool), "level": level})
+					} else {
+						c.Count(tag + ":observed:pool-above-eight-after-two-store-rounds")
+					}
+				}
+				if res.accept && len(res.pool) < level {
+					c.Fail("C11:pool-shrunk", "a completed exchange left fewer cookies in the pool than it found", []string{line}, nil)
+				}
+				c.Count(fmt.Sprintf("%s:%s:accept=%v", tag, sh.name, res.accept))
+				c.Emit(line, ans)
+			}
+		}
+	}
+}
